@@ -204,10 +204,11 @@ func main() {
 	// such patterns is compiled twice in this process, before and after every other list (a
 	// compilation must not depend on what was compiled earlier)
 	{
-		mTok := []string{"a", "b", "|", "(", ")", "^", "$", "{", "}", "*"}
-		mPath := []string{"a", "b", "|", "(", ")", "^", "$"}
-		mpats := allSeqs(mTok, 3, 1)
+		mTok := []string{"a", "|", "(", ")", "^", "$", "{", "}", "*", "2", ","}
+		mPath := []string{"a", "|", "(", "{", "}", "2", "$"}
+		mpats := allSeqs(mTok, 4, 1) // long enough for a counted repetition: a{2}, a{2,}
 		mpaths := allSeqs(mPath, 3, 1)
+		mpaths = append(mpaths, "a{2}", "a{2,}", "{2}", "aa{2}")
 		var lists [][]string
 		for _, p := range mpats {
 			lists = append(lists, []string{p})
